@@ -13,6 +13,7 @@ RULE = ("split: exhaustive grid n in 0..N x test fraction x val fraction (None +
         "one_hot: label sets (ints, floats, strings, unsorted, gaps). distinct key = (kind, n, arguments); "
         "non-trivial = n >= 2 (split/loader) or >= 2 distinct labels (one_hot)")
 RULE += (' Added after the seeded rounds: a callable transform object with len() == 0, labels as ndarray / column / nested lists (refusing is fine, a wrong encoding is not), close float labels.')
+RULE += (" Round 6 / reach monitor: the transform as the fourth positional argument.")
 ASSUMPTIONS = ["pkbar is replaced by a silent stub only if its import fails in this sandbox (progress bar, unrelated to data handling)",
                "floor rule accepted in exact rational or in binary floating arithmetic (both are 'floor(frac*n)')",
                "which samples go to which split is not prescribed by the property; only sizes, partition, pairing and (shuffle off) relative order are asserted"]
